@@ -38,6 +38,31 @@ Definition ns0_prefixes (root : string) (l : lang) : bool :=
 (* WBXML_NAMESPACE_SEPARATOR (wbxml_internals.h): the separator handed to XML_ParserCreateNS *)
 Definition NAMESPACE_SEPARATOR : ascii := "|"%char.
 
+(* strrchr(s, c) + 1 when c occurs in s *)
+Fixpoint after_last (c : ascii) (s : string) : option string :=
+  match s with
+  | EmptyString => None
+  | String x r =>
+    match after_last c r with
+    | Some t => Some t
+    | None => if Ascii.eqb x c then Some r else None
+    end
+  end.
+
+(* the root-element test of the scan (after fix 8a5d5ba): the table's root element equals the name, or — for a
+   namespaced name "namespace|local" only — the local part of the table's root element (after its last ':',
+   e.g. o-ex:rights -> rights) equals the local part of the name *)
+Definition root_matches (root : string) (l : lang) : bool :=
+  match l_root l with
+  | None => false
+  | Some elt =>
+    streq elt root ||
+    match after_last NAMESPACE_SEPARATOR root with
+    | Some local => streq (match after_last ":"%char elt with Some e => e | None => elt end) local
+    | None => false
+    end
+  end.
+
 (* wbxml_tables_search_table *)
 Definition search_table (main : list lang) (public_id system_id root : option string) : option lang :=
   match (match public_id with Some p => fst (scan_idx (has_pub_text_ci p) main 0) | None => None end) with
@@ -49,11 +74,11 @@ Definition search_table (main : list lang) (public_id system_id root : option st
       match root with
       | None => None
       | Some r =>
-        (* index = 0; the namespace scan runs only when the root contains '|' and leaves index where it stopped *)
-        let '(found, index) := if str_has NAMESPACE_SEPARATOR r then scan_idx (ns0_prefixes r) main 0 else (None, O) in
+        (* index = 0; the namespace scan runs only when the root contains '|' *)
+        let '(found, _) := if str_has NAMESPACE_SEPARATOR r then scan_idx (ns0_prefixes r) main 0 else (None, O) in
         match found with
         | Some l => Some l
-        | None => fst (scan_idx (has_root r) main index)
+        | None => fst (scan_idx (root_matches r) main 0)      (* index = 0 again (fix 8a5d5ba) *)
         end
       end
     end
